@@ -62,7 +62,8 @@ def run(check, tier, seed, scratch):
     UP = U2 if quick else tlc.export_universe(scratch, 'abc', ['args'], ['kwargs'], 3)
     base = dict(StarV={'args'}, StarK={'kwargs'}, Op='mask', Arity=1, MaxN=2)
     cex = model_leg(check, scratch, 'mask-U220-noflags', dict(base, Names=set('ab'), MaxNamed=2, MaxNamesLen=2, HideFlags=False), ['C03'])
-    cex += model_leg(check, scratch, 'mask-U220-flags', dict(base, Names=set('ab'), MaxNamed=2, MaxNamesLen=1, HideFlags=True), ['C03'])
+    cex += model_leg(check, scratch, 'mask-U220-flags', dict(base, Names=set('ab'), MaxNamed=2, MaxNamesLen=1, HideFlags=True), ['C03'],
+                     invariants=['Inv_C03_HideIsFilter'])
     if not quick:
         cex += model_leg(check, scratch, 'mask-U1972-noflags', dict(base, Names=set('abc'), MaxNamed=3, MaxNamesLen=3, HideFlags=False), ['C03'], timeout=3000)
     check.cov['model_counterexamples'] = len(cex)
